@@ -53,6 +53,16 @@ DESC = {
  "r3C16": ("recursion-depth guard counted in one process-wide AtomicUsize shared by all threads", "several deep evaluations in flight at the same instant (summed depth above 4096)"),
  "r3C19": ("eval_f64 tokenizer reuses a scratch string; the `.DIGITS` arm appends without clearing", "a leading-point literal after another literal: `2*.5`"),
  "r3C20": ("eval_number parser splices min-in-min / max-in-max into one argument list", "NaN in a non-last slot of the inner call, which is not the outer call's first argument"),
+ "r4C05": ("eval_f64 % takes an integer remainder when both operands are whole and at most `i64::MAX as f64` (= 2^63) in magnitude", "dividend exactly 2^63"),
+ "r4C06": ("eval_i64 tokenizer reads `-9223372036854775808` as one literal, also after an operand (the binary minus is swallowed)", "`1-9223372036854775808`: the digits of 2^63 after a binary minus"),
+ "r4C07": ("eval_decimal / through an exact-quotient fast path that trusts Decimal::rescale", "huge operand divided by / into one with more fractional digits (`10^27/0.25`)"),
+ "r4C08": ("eval_complex cancels a directly nested ln(exp(x)) / exp(ln(x)) to x", "`ln(exp(z))` with |Im z| > pi"),
+ "r4C09": ("eval_number product chain folded with try_fold without the order reversal: a*b*c*d computed as ((a*d)*c)*b", "three or more explicit factors whose order matters (0.1s, overflow, zero)"),
+ "r4C10": ("log(x,b) quotient snapped to the nearest integer under an absolute 1e-12 tolerance (f64, number)", "x within 1e-12 of 1: the logarithm is flushed to 0"),
+ "r4C11": ("eval_decimal min/max share a flattening fold; max wrongly splices a nested min", "`max(1, min(5, 7))`: min directly inside max with a larger inner argument"),
+ "r4C15": ("eval_number median by select_nth_unstable (lower middle read from an unordered position)", "even count of at least 18 arguments in an unlucky order"),
+ "r4C17": ("right factor of an implicit product parsed at `Additive.tighter()`, computed from enum ordinals with literal numbers", "subset without eval_i64, implicit product followed by ^, a superscript or !"),
+ "r4C18": ("From<f64> for Number: upper bound replaced by the constant 2^63-1024 but the comparison stayed strict", "the double 2^63-1024 (largest f64 inside the i64 range)"),
 }
 rows = []
 for d in sorted(glob.glob(os.path.join(V, "seeded", "*"))):
